@@ -162,6 +162,8 @@ def ipaddress_to_sdp(addr: str) -> str:
 def parameters_from_sdp(sdp: str) -> ParametersDict:
     parameters: ParametersDict = {}
     for param in sdp.split(";"):
+        # "a=1; b=2" is as common as "a=1;b=2" (see the examples of RFC 6184)
+        param = param.strip()
         if "=" in param:
             k, v = param.split("=", 1)
             if k in FMTP_INT_PARAMETERS:
